@@ -130,6 +130,19 @@ func c16Shapes() []*c16Case {
 	mix.Rules[0].Action = " $$ = $3 "
 	mix.Rules[2].Action = " _ = $1 "
 	add("tag-mix", mix)
+	// members of the value union whose types cannot be compared or copied bit by bit in Go: slice, map,
+	// function, interface, pointer, array of slices (the driver must treat the value as an opaque struct)
+	for _, m := range [][2]string{{"slice", "[]int"}, {"map", "map[string]int"}, {"func", "func() int"}, {"interface", "interface{}"}, {"pointer", "*int"}, {"array-of-slices", "[2][]string"}, {"chan", "chan int"}} {
+		name, goT := m[0], m[1]
+		um := gram.Parse("S", nil, "S: S TA | TA")
+		um.Union = " v int \n x " + goT + " "
+		um.HasUnion = true
+		um.Tokens = []gram.TokDecl{{Name: "TA", Tag: "x"}}
+		um.Types = []gram.TypeDecl{{Tag: "v", Names: []string{"S"}}}
+		um.Rules[0].Action = " $$ = $1 + 1; _ = $2 "
+		um.Rules[1].Action = " $$ = 1; _ = $1 "
+		add("union-member-"+name, um)
+	}
 	num := gram.Parse("S", nil, "S: TA TB TC | ")
 	num.Tokens = []gram.TokDecl{{Name: "TA", Num: 300}, {Name: "TB"}, {Name: "TC", Num: 2}}
 	add("explicit-numbers", num)
@@ -250,6 +263,9 @@ func c16Source(s *gram.Spec, variant, pkg string) string {
 		if c.HasUnion {
 			// the union body is target-language text: translate the two field shapes used by the shape list
 			c.Union = strings.NewReplacer(" v int ", " v :number; ", " w string ", " w :string; ").Replace(c.Union)
+			if i := strings.Index(c.Union, "\n x "); i >= 0 {
+				c.Union = c.Union[:i] + "\n x :any; "
+			}
 		}
 		if len(c.MorePrologue) > 0 {
 			// the blocks are target-language text
